@@ -7,6 +7,8 @@ import (
 	"os"
 	"testing"
 
+	"github.com/golang/glog"
+
 	"verif/kit"
 )
 
@@ -22,6 +24,7 @@ func TestMain(m *testing.M) {
 	_ = flag.Set("stderrthreshold", "FATAL")
 	_ = flag.Set("log_dir", kit.OutDir())
 	code := m.Run()
+	glog.Flush()
 	kit.Flush(os.Getenv("VERIF_PROP"))
 	os.Exit(code)
 }
